@@ -159,6 +159,19 @@ func (e *jsEnv) val(p *parser) string {
 	case "b:1":
 		return "true"
 	}
+	if strings.HasPrefix(a, "s16:") {
+		// a string held as []uint16 inside the Value: every String.fromCharCode result is
+		h := a[4:]
+		var us []string
+		for i := 0; i+4 <= len(h); i += 4 {
+			u, err := strconv.ParseUint(h[i:i+4], 16, 16)
+			if err != nil {
+				panic(err)
+			}
+			us = append(us, strconv.FormatUint(u, 10))
+		}
+		return "String.fromCharCode(" + strings.Join(us, ",") + ")"
+	}
 	name := fmt.Sprintf("g%d", e.n)
 	e.n++
 	if strings.HasPrefix(a, "s:") || a == "s" {
@@ -405,7 +418,9 @@ func implSlice(f []string) string {
 func implMap(f []string) string {
 	et := parseType(f[1])
 	m := reflect.MakeMap(reflect.MapOf(kindType["str"], et))
-	if f[2] != "-" {
+	if f[2] == "nil" {
+		m = reflect.Zero(reflect.MapOf(kindType["str"], et)) // a nil map handed over by value
+	} else if f[2] != "-" {
 		for _, kv := range strings.Split(f[2], ",") {
 			a := strings.SplitN(kv, "=", 2)
 			n, _ := strconv.ParseInt(a[1], 10, 64)
@@ -456,6 +471,9 @@ func implMap(f []string) string {
 				}
 				o = "v:" + render(x)
 			case "gw":
+				if m.IsNil() {
+					return "bad-op" // Go itself cannot write to a nil map
+				}
 				n, _ := strconv.ParseInt(a[2], 10, 64)
 				m.SetMapIndex(reflect.ValueOf(a[1]), goElem(et, n))
 				o = "-"
@@ -560,3 +578,31 @@ func implField(f []string) string {
 }
 
 var _ = h.F64Hex
+
+// ---------------------------------------------------------------- op: cb (a JavaScript function as a Go func)
+
+var cbScripts = map[string]string{
+	"ret":      `"ok:" + apply(function(x){ return x + 41; })`,
+	"range":    `try { apply(function(x){ throw new RangeError("r"); }); "no-throw" } catch (e) { "caught:" + e.name + ":" + e.message + ":" + ((e instanceof RangeError) ? "instanceof" : "other") }`,
+	"type":     `try { apply(function(x){ throw new TypeError("t"); }); "no-throw" } catch (e) { "caught:" + e.name + ":" + e.message + ":" + ((e instanceof TypeError) ? "instanceof" : "other") }`,
+	"num":      `try { apply(function(x){ throw 5; }); "no-throw" } catch (e) { "caught:" + typeof e + ":" + e }`,
+	"str":      `try { apply(function(x){ throw "boom"; }); "no-throw" } catch (e) { "caught:" + typeof e + ":" + e }`,
+	"obj":      `try { apply(function(x){ throw {a: 1}; }); "no-throw" } catch (e) { "caught:" + typeof e + ":" + e.a }`,
+	"retstr":   `try { apply(function(x){ return "a"; }); "no-throw" } catch (e) { "caught:" + e.name + "::" + ((e instanceof TypeError) ? "instanceof" : "other") }`,
+	"retfrac":  `try { apply(function(x){ return 1.5; }); "no-throw" } catch (e) { "caught:" + e.name + "::" + ((e instanceof RangeError) ? "instanceof" : "other") }`,
+	"uncaught": `apply(function(x){ throw new RangeError("r"); })`,
+}
+
+func implCb(f []string) string {
+	src, ok := cbScripts[f[1]]
+	if !ok {
+		return "bad-op"
+	}
+	vm := otto.New()
+	vm.Set("apply", func(cb func(int) int) int { return cb(1) })
+	v, tok := runJS(vm, src)
+	if tok != "" {
+		return tok
+	}
+	return v.String()
+}
